@@ -40,6 +40,15 @@ def gen_program(ctx, rng, n):
                     opts["size"] = len(d) + 1
                 if rng.random() < 0.1:
                     opts["sri"] = ref.sri(algo, d + b"!")
+                elif rng.random() < 0.15:
+                    # the caller declares the (right or wrong) digest of ANOTHER algorithm, names no algorithm itself or
+                    # keeps the one above, or lists several hashes: whatever that means, it means the same in every flavour
+                    oa = rng.choice([a for a in ("sha512", "sha384", "sha256", "sha1") if a != algo])
+                    opts["sri"] = ref.sri(oa, d + rng.choice([b"", b"", b"!"]))
+                    if rng.random() < 0.4:
+                        opts["sri"] = opts["sri"] + " " + ref.sri(algo, d)
+                    if rng.random() < 0.6:
+                        del opts["algo"]
                 _s, lens = gen.chunking(rng, len(d))
                 keyed = rng.random() < 0.8
                 st = {"op": "writer", "opts": opts, "chunks": gen.split(d, lens),
